@@ -77,7 +77,7 @@ static Result scenario(int which, uint64_t seed)
         ParCSRMatrix* AT = (ParCSRMatrix*)A->transpose(); AT->sort(); add(R, vh::local_entries(AT)); delete AT;
         delete A; delete B; delete Ac; delete Bc;
     } else if (which == 2 || which == 3) {
-        int grid[2] = { 9 + (int)(seed % 3), 8 };
+        int grid[2] = { 8 + (int)(seed % 3), 8 + (int)(seed % 3) };   // square grids only (C19 finding)
         double* stencil = diffusion_stencil_2d(0.1, M_PI / 5);
         ParCSRMatrix* A = par_stencil_grid(stencil, grid, 2);
         delete[] stencil;
